@@ -781,6 +781,19 @@ def _site(stmt, names):
             return t, "if"
         if isinstance(t, ast.UnaryOp) and isinstance(t.op, ast.Not) and _call_of(t.operand, names):
             return t.operand, "ifnot"
+        # `if h(a) == 0:` / `if h(a) is None and ...:` - the call is the first thing the test evaluates
+        first = t
+        while True:
+            if isinstance(first, ast.BoolOp):
+                first = first.values[0]
+            elif isinstance(first, ast.Compare):
+                first = first.left
+            elif isinstance(first, ast.UnaryOp) and isinstance(first.op, ast.Not):
+                first = first.operand
+            else:
+                break
+        if first is not t and _call_of(first, names):
+            return first, "hoist"
     return None, None
 
 
